@@ -178,6 +178,9 @@ pub fn base_specs(tier: &str) -> Vec<VoiceRef> {
         VoiceRef::Gen(VoiceSpec { meta: m(2, 3, 4, 3, 2, true, true, 0, false), body: 101 }),
         VoiceRef::Gen(VoiceSpec { meta: m(5, 3, 8, 5, 3, false, true, 0, false), body: 102 }),
         VoiceRef::Gen(VoiceSpec { meta: m(1, 2, 3, 1, 0, false, false, 2, true), body: 103 }),
+        // a valid voice whose header carries non-ASCII text (a Japanese COMMENT): every single fault also
+        // meets multi-byte characters in error excerpts, column arithmetic and line handling
+        VoiceRef::Gen(VoiceSpec { meta: m(2, 3, 3, 3, 1, false, false, 0, false), body: 107 | crate::voicegen::NONASCII_TEXT }),
         VoiceRef::Bundled,
     ];
     if tier == "thorough" {
